@@ -375,6 +375,8 @@ def run_C10(run):
     # (4) abbreviations and steps as operands
     run.gen_and_parse("MC_Syntax", consts(sy, MaxOps=2, OperandIds={"a", "@a", "..", ".", "ax", "pred", "fn1"},
                                           OpIds={"/", "//", "|", "=", "and", "+", "*"}), "abbreviations", inv)
+    # (4b) the expressions of the repository's own test suite through the reference lexer + parser
+    run.gen_and_parse("MC_Corpus", {}, "corpus", ("Emit",))
     # (5) hook-independent: the VALUE of unparenthesised chains over constants must be the value of the reference grouping
     run.gen_and_parse("MC_Syntax", consts(sy, MaxOps=2 if q else 3, OperandIds={"1", "2", "3", "0", ".5", "true", "empty"} if q else
                                           {"1", "2", "3", "0", "true"}, OpIds=VALUE_OPS, EvalMode=True, WithMinus=False),
